@@ -61,6 +61,14 @@ class World:
             self.tags[tk] = len(self.tags) + 1
         return self.tags[tk]
 
+    def ix(self, off, i):
+        """slice element position off+i, wrapped in an uninterpreted function so that quantified contracts over
+        slice elements have an arithmetic-free trigger; its meaning is given by the axiom in string_axioms()"""
+        if z3.is_int_value(off) and off.as_long() == 0:
+            return i
+        self.ix_used = True
+        return self.uf('ix', z3.IntSort(), z3.IntSort(), z3.IntSort())(off, i)
+
     def strlit(self, s):
         if s not in self.strlits:
             self.strlits[s] = z3.Const('str!%d' % len(self.strlits), self.Str)
@@ -77,6 +85,10 @@ class World:
             out.append(z3.Distinct(*[c for _, c in lits]))
         for s, c in lits:
             out.append(self.strlen(c) == len(s.encode('utf-8')))
+        if getattr(self, 'ix_used', False):
+            a, b = z3.Ints('ix_a ix_b')
+            f = self.ufs['ix']
+            out.append(z3.ForAll([a, b], f(a, b) == a + b, patterns=[f(a, b)]))
         x = z3.Const('sx', self.Str)
         out.append(z3.ForAll([x], self.strlen(x) >= 0, patterns=[self.strlen(x)]))
         if '' in self.strlits:
